@@ -179,7 +179,7 @@ class DictDecoder:
 
         if clazz is generic:
             real_clazz: type[T] | None = None
-            if xsi_type:
+            if xsi_type and isinstance(xsi_type, str):
                 real_clazz = self.context.find_type(xsi_type)
 
             if real_clazz is None:
@@ -402,7 +402,9 @@ class DictDecoder:
             # Is this scenario still possible???
             value = self.bind_text(meta, var, params)
         elif xsi_type:
-            clazz: type | None = self.context.find_type(xsi_type)
+            clazz: type | None = None
+            if isinstance(xsi_type, str):
+                clazz = self.context.find_type(xsi_type)
 
             if clazz is None:
                 raise ParserError(f"Unable to locate xsi:type `{xsi_type}`")
